@@ -198,7 +198,7 @@ def op (s : St) (tok : String) : Option (St × String) :=
   | ["eq", o] => do
     let o ← parseOid o
     let v2 := setTip idx [] o
-    let r := b01 (v.length == v2.length && v.tip == v2.tip)
+    let r := b01 (v.equals v2)
     pure (s, r ++ r)
   | ["itips"] =>
     -- InactiveTips dereferences the parent of every off-view node: the root off the view panics
@@ -333,7 +333,10 @@ def runHF (ps : List Nat) (bad : List Nat) (ops : List (Option HF.Op)) : String 
     -- (a header accepted by C02's machine reads `ok` in versions that do not model the best header)
     ((c02Trace P bad plain).zip trace).all (fun (c, t) =>
       c.2 == t.2.2 && (c.1 == asC02 t.1 t.2.1 || (c.1 == "ok" && !t.2.1.isErr)))
-  "|".intercalate (outs ++ [s!"hdrs={".".intercalate hdrs}", s!"hloc={".".intercalate hloc}",
+  let byH := (List.range (maxH + 2)).map (fun (h : Nat) => pid (Spec.ancestorAt P sf.b.tip (h : Int)))
+  let byHash := nodes.map (fun n => if (Spec.pathUp P sf.b.tip).contains n then toString (depth n) else "-")
+  "|".intercalate (outs ++ [s!"byheight={".".intercalate byH}", s!"byhash={".".intercalate byHash}",
+    s!"hdrs={".".intercalate hdrs}", s!"hloc={".".intercalate hloc}",
     s!"blocksonly={bo}@{depth bo}"] ++ (if c02ok then [] else ["c02-differs"]))
 
 def splitOn2 (toks : List String) : List (List String) :=
